@@ -50,28 +50,29 @@ Definition in_quotes (b : bytes) : bool :=
    outside the model's domain (the scanner never lets one through) and yield None, as do
    the failures of the real function (bare quote, control byte, dangling backslash).
    Bytes >= 0x80 are copied: the domain is valid UTF-8. *)
+Definition escape_image (e : N) : option N :=
+  if (e =? 34) || (e =? 92) || (e =? 47) || (e =? 39) then Some e
+  else if e =? 98 then Some 8
+  else if e =? 102 then Some 12
+  else if e =? 110 then Some 10
+  else if e =? 114 then Some 13
+  else if e =? 116 then Some 9
+  else None.
+
 Fixpoint unquote_body (s : bytes) : option bytes :=
   match s with
   | [] => Some []
-  | 92 :: rest =>
-      match rest with
-      | [] => None
-      | e :: rest' =>
-          let img :=
-            if (e =? 34) || (e =? 92) || (e =? 47) || (e =? 39) then Some e
-            else if e =? 98 then Some 8
-            else if e =? 102 then Some 12
-            else if e =? 110 then Some 10
-            else if e =? 114 then Some 13
-            else if e =? 116 then Some 9
-            else None in
-          match img, unquote_body rest' with
-          | Some c, Some t => Some (c :: t)
-          | _, _ => None
-          end
-      end
   | c :: rest =>
-      if (c =? 34) || (c <? 32) then None
+      if c =? 92 then
+        match rest with
+        | [] => None
+        | e :: rest' =>
+            match escape_image e, unquote_body rest' with
+            | Some x, Some t => Some (x :: t)
+            | _, _ => None
+            end
+        end
+      else if (c =? 34) || (c <? 32) then None
       else match unquote_body rest with Some t => Some (c :: t) | None => None end
   end.
 
